@@ -38,3 +38,12 @@ Example C09_example :
   run_client [[0x83; 0x01]; [0x42; 0x61]; [0x62; 0x05]] =
   ([TArray 3; TUint I8 1; TBytes 1 [0x61; 0x62]; TUint I8 5], DWait [] 1).
 Proof. vm_compute. reflexivity. Qed.
+
+(* "keeps no state between calls": no variable with static storage duration in the files of the streaming
+   decoder, the loaders, the encoders, the UTF-8 counter and the size guards is mutable or ever assigned
+   (inventory regenerated from the AST of this run; theories/Bridge_inventory.v) *)
+From CB Require Import Bridge_inventory.
+From CBGen Require Import Gen_inventory.
+Theorem C09_no_static_state : forallb stateless_ok gen_globals = true.
+Proof. exact bridge_stateless_files. Qed.
+Print Assumptions C09_no_static_state.
